@@ -309,7 +309,8 @@ class Engine:
         return t.make(dom=Sym(TSet(ks[0].t), dom), val=Sym(t.ftype('val'), val))
 
     def ev_Tuple(self, e, st):
-        els = [self.ev(x, st) for x in e.elts]
+        tet = getattr(self.w, 'empty_in_tuple', None)          # (x, set()): the element type of an empty literal inside a tuple comes from the world
+        els = [tet.empty() if (tet is not None and self.is_empty_literal(x)) else self.ev(x, st) for x in e.elts]
         t = TTuple(*[x.t for x in els])
         return t.make(**{f'_{i}': x for i, x in enumerate(els)})
 
@@ -482,8 +483,27 @@ class Engine:
             raise Unsupported(f'method {f.attr} on {recv.t} (line {e.lineno})')
         raise Unsupported('call form')
 
+    def stores_reference(self, node, st):
+        """the expression puts an existing mutable object (a name / attribute / subscript of collection or record type), or a tuple / list holding one,
+        into a container: the container then shares it with whoever else holds it"""
+        if isinstance(node, (ast.Tuple, ast.List, ast.Set)): return any(self.stores_reference(x, st) for x in node.elts)
+        if isinstance(node, (ast.Name, ast.Attribute, ast.Subscript)):
+            try:
+                n0 = len(self.obls); v = self.ev(node, st.copy()); del self.obls[n0:]
+            except Unsupported: return False
+            return v.t is not None and (isinstance(v.t, (TSet, TBag, TSeq)) or (isinstance(v.t, TRec) and not is_tuple(v.t) and not isinstance(v.t, TURec)) or
+                                        (is_tuple(v.t) and any(isinstance(ft, (TSet, TBag, TSeq)) for _, ft in v.t.fields)))
+        return False
+
+    def root_name(self, node):
+        while isinstance(node, (ast.Attribute, ast.Subscript)): node = node.value
+        return node.id if isinstance(node, ast.Name) else None
+
     def coll_method(self, f, recv, args, st, e):
         t, a = recv.t, f.attr
+        if a in ('append', 'add', 'insert', 'extend', 'update') and e.args and self.stores_reference(e.args[-1], st):
+            rn = self.root_name(f.value)
+            if rn is not None: st.env['$shares:' + rn] = True          # what comes out of this container later may be shared: it must not be mutated (see bind of pop / for)
         if isinstance(t, TSet):
             if a == 'union' or a == 'intersection':
                 q = Const(fresh_name('uq'), t.elem.sort()); res = t.fresh(a)
@@ -669,11 +689,15 @@ class Engine:
             # The engine does not model that sharing; it remembers that x is an alias and refuses a mutation through it (see assign).
             aliasing = isinstance(s.value, (ast.Attribute, ast.Subscript, ast.Name)) and v.t is not None and \
                 (isinstance(v.t, (TSet, TBag, TSeq)) or (isinstance(v.t, TRec) and not is_tuple(v.t)))
+            from_shared = isinstance(s.value, ast.Call) and isinstance(s.value.func, ast.Attribute) and s.value.func.attr in ('pop', 'popleft') \
+                and st.env.get('$shares:' + str(self.root_name(s.value.func.value)))
             for t in s.targets:
-                if isinstance(t, ast.Tuple): self.bind_target(t, v, st.env)
+                if isinstance(t, ast.Tuple):
+                    self.bind_target(t, v, st.env)
+                    for nm_ in self.target_names(t): st.env['$alias:' + nm_] = bool(from_shared)
                 else:
                     self.assign(t, v, st, rebind=isinstance(t, ast.Name))
-                    if isinstance(t, ast.Name): st.env['$alias:' + t.id] = bool(aliasing)
+                    if isinstance(t, ast.Name): st.env['$alias:' + t.id] = bool(aliasing or from_shared)
             return [(st, 'normal')]
         if isinstance(s, ast.AugAssign):
             v = self.ev(ast.BinOp(left=s.target, op=s.op, right=s.value, lineno=s.lineno, col_offset=0), st)
@@ -801,6 +825,21 @@ class Engine:
         return {n.id for n in ast.walk(t) if isinstance(n, ast.Name)}
 
     def ex_loop(self, s, st, path):
+        """a loop body may store a shared reference into a container that the *next* iteration reads (to_process.append((state, visited))): the body is
+        analysed once, and if that made a container `sharing`, the analysis is redone with the container marked from the start"""
+        n0 = len(self.obls); self._share_seen = set()
+        res = self._ex_loop(s, st.copy(), path)
+        new = {k for k in self._share_seen if not st.env.get(k)}
+        if not new:
+            return self._ex_loop_commit(s, st, path, res, n0)
+        del self.obls[n0:]
+        for k in new: st.env[k] = True
+        return self._ex_loop(s, st, path)
+
+    def _ex_loop_commit(self, s, st, path, res, n0):
+        return res
+
+    def _ex_loop(self, s, st, path):
         ordinal = '.'.join(map(str, path))
         inv = self.cur.loops.get(ordinal)
         if inv is None: raise Unsupported(f'loop {ordinal} (line {s.lineno}) has no invariant')
@@ -812,6 +851,7 @@ class Engine:
         gupd = self.cur.ghost_updates.get(ordinal)
         def finish(body_outs, next_done_inv):
             for e_st, oc in body_outs:
+                self._share_seen |= {k for k, v in e_st.env.items() if isinstance(k, str) and k.startswith('$shares:') and v}
                 if oc in ('normal', 'continue'):
                     if gupd is not None:
                         for g, v in gupd(NS(e_st.env)).items():
